@@ -227,7 +227,7 @@ def fk_oracle(sch, facts):
 
 
 # ------------------------------------------------------------------ the run
-def run_family(c, profile, n_quick, n_thorough, compare, oracle, what, trusted_extra=()):
+def run_family(c, profile, n_quick, n_thorough, compare, oracle, what, trusted_extra=(), command="store"):
     """compare(impl_tx, model_tx) -> None | description of the property-relevant difference
        oracle(sch, case_txs, impl_obs, model_obs) -> list of (key, description, tx index)  : direct violations"""
     pid = c.pid
@@ -254,7 +254,7 @@ def run_family(c, profile, n_quick, n_thorough, compare, oracle, what, trusted_e
         args = [harness, "store", "--out", c.work, "--tmp", c.work, "--n", "0", "--corpus", rin]
     else:
         n = n_thorough if c.thorough else n_quick
-        args = [harness, "store", "--seed", str(c.seed), "--tier", c.tier, "--out", c.work, "--tmp", c.work,
+        args = [harness, command, "--seed", str(c.seed), "--tier", c.tier, "--out", c.work, "--tmp", c.work,
                 "--profile", profile, "--n", str(n)]
     gen = dict(profile=profile, seed=c.seed, tier=c.tier, n=n)
     corpus = os.path.join(vlib.VERIF, "corpus", "store", profile + ".txt")
